@@ -133,6 +133,39 @@ def edge_of_window(ctx, rng, n):
     ctx.extra["edge_of_window_generator_tries"] = tries
 
 
+def equal_ends(ctx, rng, n):
+    """Moves whose first-tick and last-tick rates have exactly the same magnitude - with the same sign (a
+    profile that is mirror-symmetric about mid-move) or with OPPOSITE signs (not symmetric at all: the vertex
+    lies well inside one half).  Anything that takes |R(1)| == |R(T)| for symmetry is wrong on the second."""
+    done = tries = 0
+    while done < n and tries < 60 * n:
+        tries += 1
+        time = rng.choice((4, 5, 8, 9, 12, 20, 33, 100, 257, 1000, rng.randint(4, 3000)))
+        jerk = rng.choice((1, -1, 2, -2, 3, 5, -7, 12, rng.randint(-40, 40))) or 1
+        opposite = rng.random() < 0.6
+        if opposite:
+            accel = rng.randint(-60, 60) * rng.choice((1, 1, time))
+            total = (time + 1) * accel + jerk * time * (time - 1) // 2
+            if total % 2:
+                accel += 1
+                total = (time + 1) * accel + jerk * time * (time - 1) // 2
+            r_eff = -total // 2
+        else:
+            if (jerk * time) % 2:
+                jerk *= 2
+            accel = -jerk * time // 2
+            r_eff = rng.randint(-10 ** 6, 10 ** 6)
+        rate = r_eff + S.trunc_div(accel, 2) - S.trunc_div(jerk, 6)
+        if not (-S.I32 <= accel < S.I32) or abs(rate) > S.RMAX or not S.t3_in_domain(rate, accel, jerk, time):
+            continue
+        r1, rt = S.t3_rate(rate, accel, jerk, 1), S.t3_rate(rate, accel, jerk, time)
+        if abs(r1) != abs(rt) or (opposite and (r1 != -rt or r1 == 0)):
+            continue
+        ctx.case(["ends of equal magnitude, %s sign" % ("opposite" if opposite else "same")], (time, rate, accel, jerk))
+        one_case(ctx, time, rate, accel, jerk)
+        done += 1
+
+
 def over_limit(ctx, rng, n):
     """In-domain moves pushed over the limit by raising the start rate: interior peak above 2^31-1 with
     the ends inside it, ends above it, everything above it."""
@@ -160,6 +193,9 @@ def run(ctx):
     rng = ctx.rng
     from .. import longrun
     _early = longrun.Early()
+    equal_ends(ctx, rng, ctx.budget(6_000, 40_000))
+    ctx.need("ends of equal magnitude, opposite sign", 1_500)
+    ctx.need("ends of equal magnitude, same sign", 1_000)
     over_limit(ctx, rng, ctx.budget(8_000, 80_000))
     ctx.need("peak above the 2^31-1 limit (the move the helper must expose)", 3_000)
     edge_of_window(ctx, rng, ctx.budget(6_000, 60_000))
